@@ -23,24 +23,21 @@
    Model file: no proofs here. *)
 From Coq Require Import String DecimalString ZArith List Bool Arith.
 From XF Require Import Arith Discretize.
+From XF.gen Require Export PbcSel.
 Import ListNotations.
 
-Inductive filekind := Magnetics | Electrostatics | HeatFlow.
+(* [filekind], [is_periodic], [is_antiperiodic] (the BdryFormat numbers that the three readers call
+   periodic / antiperiodic, CBoundaryProp.cpp) and [pbc_selected] (the test under "// pbc" in
+   DoPeriodicBCTriangulation, l. 1126) are regenerated from the sources on every run:
+   gen/PbcSel.v, written by tools/props/c07.py. *)
 
-(* C{M,S,H}BoundaryProp::isPeriodic(PeriodicityType::AntiPeriodic), CBoundaryProp.cpp *)
-Definition is_antiperiodic (k : filekind) (fmt : Z) : bool :=
-  match k with
-  | Magnetics => (fmt =? 5)%Z || (fmt =? 7)%Z
-  | Electrostatics => (fmt =? 4)%Z
-  | HeatFlow => (fmt =? 5)%Z
-  end.
-(* ... isPeriodic(PeriodicityType::Periodic) : what the readers and solvers call periodic *)
-Definition is_periodic (k : filekind) (fmt : Z) : bool :=
-  match k with
-  | Magnetics => (fmt =? 4)%Z || (fmt =? 6)%Z
-  | Electrostatics => (fmt =? 3)%Z
-  | HeatFlow => (fmt =? 4)%Z
-  end.
+(* what the readers call (anti)periodic; 6 and 7 are the air gap elements of magnetics files *)
+Definition reader_pbc (k : filekind) (fmt : Z) : bool :=
+  (is_periodic k fmt || is_antiperiodic k fmt) && (fmt <? 6)%Z.
+(* does the selection recognise every such condition? (decided over the BdryFormat values 0..7) *)
+Definition selection_matches_readers : bool :=
+  forallb (fun k => forallb (fun f => implb (reader_pbc k f) (pbc_selected k f)) [0; 1; 2; 3; 4; 5; 6; 7]%Z)
+          [Magnetics; Electrostatics; HeatFlow].
 
 Inductive perr :=
 | EMoreThanTwoSegs (bc : nat)     (* "... is assigned to more than two segments" *)
@@ -64,12 +61,14 @@ Definition sort_xy (e : nat * nat * nat) : nat * nat * nat :=
 Definition same_xy (a b : nat * nat * nat) : bool :=
   Nat.eqb (fst (fst a)) (fst (fst b)) && Nat.eqb (snd (fst a)) (snd (fst b)).
 
-(* the double while loop of l. 1795-1806: entry k erases every later entry with the same x, y *)
-Fixpoint prune (l : list (nat * nat * nat)) : list (nat * nat * nat) :=
-  match l with
-  | [] => []
-  | e :: r => e :: filter (fun e' => negb (same_xy e e')) (prune r)
+(* the double while loop of l. 1795-1806: entry k erases every later entry with the same x, y, then
+   k moves on to the next entry that is left *)
+Fixpoint prune_loop (fuel : nat) (l : list (nat * nat * nat)) : list (nat * nat * nat) :=
+  match fuel, l with
+  | S fu, e :: r => e :: prune_loop fu (filter (fun e' => negb (same_xy e e')) r)
+  | _, _ => l
   end.
+Definition prune (l : list (nat * nat * nat)) : list (nat * nat * nat) := prune_loop (length l) l.
 
 (* the .pbc file: count, "%i    %i    %i    %i\n" per entry, number of air gap elements (0) *)
 Definition dec (n : nat) : string := NilZero.string_of_uint (Nat.to_uint n).
@@ -204,10 +203,10 @@ Section Pbc.
         (combine (seq 0 (length arcs)) (combine arcs ars)).
 
   (* ---- which conditions are (anti)periodic (l. 1115-1142) ----------------------------------- *)
-  (* the test is on BdryFormat 4 / 5 for every file type; the sign comes from isPeriodic *)
+  (* the selection test is [pbc_selected] (gen/PbcSel.v); the sign comes from isPeriodic(AntiPeriodic) *)
   Definition build_pbclst (kind : filekind) (bdry : list Z) : list pbce :=
     flat_map (fun '(i, fmt) =>
-                if (fmt =? 4)%Z || (fmt =? 5)%Z
+                if pbc_selected kind fmt
                 then [mkPbce i (is_antiperiodic kind fmt) 0 0 0 0] else [])
              (combine (seq 0 (length bdry)) bdry).
 
